@@ -548,11 +548,92 @@ let unx_leg step steps =
 (* ------------------------------------------------------------------ entry *)
 let guard f = try f () with Bad m -> m
 
+(* ------------------------------------------------------------------ special-member families, ops "sm?.<F>" *)
+(* (alternatives, index the objects start with, has the optional<U> object c, flags whose element traits are
+   printed, mask of the wrapper's traits) *)
+let sm_cfg op =
+  let fl n = f_of_bits (ni n) in
+  let num pre =
+    let n = String.length pre in
+    if String.length op > n && String.sub op 0 n = pre then
+      match int_of_string_opt (String.sub op n (String.length op - n)) with
+      | Some f when f >= 0 && f < 32 && pre ^ string_of_int f = op -> Some f
+      | _ -> None
+    else None
+  in
+  match op with
+  | "smw.a" -> Some ([ fl 2; f_plain; fl 16 ], 1, false, [ fl 2; f_plain; fl 16 ], 0x1ff)
+  | "smw.b" -> Some ([ fl 8; fl 1; f_plain ], 2, false, [ fl 8; fl 1; f_plain ], 0x1ff)
+  | "smw.c" -> Some ([ f_plain; fl 4; fl 2 ], 0, false, [ f_plain; fl 4; fl 2 ], 0x1ff)
+  | _ -> (
+      match (num "smv.", num "smo.", num "sme.", num "smf.") with
+      | Some f, _, _, _ -> Some ([ f_plain; fl f ], 0, false, [ f_plain; fl f ], 0x1ff)
+      | _, Some f, _, _ -> Some ([ f_plain; fl f ], 0, true, [ fl f ], 0x1ff)
+      | _, _, Some f, _ -> Some ([ fl f; f_plain ], 1, false, [ fl f; f_plain ], 0x1f3)
+      | _, _, _, Some f -> Some ([ f_plain; fl f ], 0, false, [ f_plain; fl f ], 0x1f3)
+      | _ -> None)
+
+let sm_ev_s = function
+  | EvI v -> "i" ^ si v
+  | EvCC v -> "c" ^ si v
+  | EvMC v -> "m" ^ si v
+  | EvCA (o, n) -> "a" ^ si o ^ ":" ^ si n
+  | EvMA (o, n) -> "A" ^ si o ^ ":" ^ si n
+  | EvD v -> "d" ^ si v
+  | EvXC v -> "x" ^ si v
+  | EvXM v -> "X" ^ si v
+  | EvXA (o, n) -> "y" ^ si o ^ ":" ^ si n
+  | EvXMA (o, n) -> "Y" ^ si o ^ ":" ^ si n
+
+let sm_leg traits run (alts, i0, has_c, elts, mask) steps =
+  let nalts = List.length alts in
+  let sop_of s =
+    let t = tb s.t in
+    (* optional: index 0 is the disengaged state, it has no value *)
+    let v = if has_c && s.p = 0 then zi 0 else zi s.q in
+    match s.opc with
+    | 'E' when s.p >= 0 && s.p < nalts && (mask = 0x1ff || s.p = 0) -> SEmplace (t, ni s.p, v)
+    | 'I' when s.p >= 0 && s.p < nalts -> SInPlace (t, ni s.p, v)
+    | 'C' -> SCopyAssign t
+    | 'M' -> SMoveAssign t
+    | 'K' -> SCopyCtor t
+    | 'J' -> SMoveCtor t
+    | 'F' -> SSelfCopy t
+    | 'G' -> SSelfMove t
+    | 'Q' when has_c -> SSetC (zi s.q)
+    | 'R' when has_c -> SResetC
+    | 'x' when has_c -> SConvCopy t
+    | 'y' when has_c -> SConvMove t
+    | _ -> raise Not_found
+  in
+  let ops = List.map sop_of steps in
+  let o0 = { oi = ni i0; ov = zi 0 } in
+  let per, fin = run alts ((o0, o0), { oi = ni 0; ov = zi 0 }) ops in
+  let st x = [ sn x.oi; si x.ov ] in
+  let head =
+    [ "ok"; "tr" ] @ List.map (fun f -> sn (elt_traits f)) elts @ [ string_of_int (int_of_nat (traits alts) land mask); ";" ]
+  in
+  let body =
+    List.concat_map
+      (fun ((((a, b), c), tmp), e) ->
+        st a @ st b
+        @ (if has_c then [ (if int_of_nat c.oi = 1 then "1" else "0"); (if int_of_nat c.oi = 1 then si c.ov else "0") ] else [])
+        @ (match tmp with Some t -> "tmp" :: st t | None -> [])
+        @ ("ev" :: List.map sm_ev_s e)
+        @ [ ";" ])
+      per
+  in
+  join (head @ body @ ("fin" :: "ev" :: List.map sm_ev_s fin))
+
 let run_case op tk =
   match List.assoc_opt op sets with
   | Some alts ->
       let steps = read_steps tk in
       (guard (fun () -> var_model alts steps), guard (fun () -> var_spec alts steps))
+  | None when sm_cfg op <> None ->
+      let cfg = Option.get (sm_cfg op) in
+      let steps = read_steps tk in
+      (guard (fun () -> sm_leg m_traits m_run cfg steps), guard (fun () -> sm_leg s_traits s_run cfg steps))
   | None -> (
       match op with
       | "opt.is" | "opt.ti" | "opt.t2" | "opt.ib" | "opt.df" ->
